@@ -346,9 +346,11 @@ class LiteralMethod(DeserializationMethod):
         except KeyError:
             if self.coercer is not None:
                 for cls in self.types:
+                    # each type of the values is tried: a type the data cannot be
+                    # coerced to must not hide the next ones
                     try:
                         return self.value_map[self.coercer(cls, data)]
-                    except KeyError:
+                    except (KeyError, TypeError, ValidationError):
                         pass
             raise ValidationError(format_error(self.error, data))
         except TypeError:
